@@ -848,7 +848,14 @@ func main() {
 		lostInDrain := false // the connection was cut while the monitor was between `Connected` and its drain
 		var chStates []string
 		chClosedBeforeClose, sawMonitorDisc := false, false
-		for _, e := range marks {
+		lastFaultIdx, lastDialIdx := -1, -1
+		for ei, e := range marks {
+			switch e {
+			case "f.cut", "f.down", "f.rst", "f.stall", "f.restart", "f.opnfail", "f.cutAtDone":
+				lastFaultIdx = ei
+			case "dial":
+				lastDialIdx = ei
+			}
 			switch {
 			case strings.HasPrefix(e, "f.ch "):
 				x := strings.TrimPrefix(e, "f.ch ")
@@ -870,7 +877,8 @@ func main() {
 				x := strings.TrimPrefix(e, "st ")
 				lastSt = x
 				if x == "Connected" {
-					faultSinceConnected = false
+					// a fault injected after the last dial may have hit the connection that is being reported now
+					faultSinceConnected = lastFaultIdx > lastDialIdx
 				}
 				if x == "Disconnected" {
 					sawMonitorDisc = true
